@@ -188,16 +188,29 @@ func runC09(c *mon.Ctx) {
 						cmp("unrelated-state-added", extra, ac.ev)
 					}
 					// AddAuthEvents sufficiency
-					if sameRoom(ac.state) && ac.kind != "create" {
-						prov, err := gmsl.NewAuthEvents(ac.state)
+					provStates := [][]gmsl.PDU{ac.state}
+					if t.Domainless {
+						// the same with a provider that does not hold the create event (in these versions it is never listed
+						// among the auth events, and a caller may well leave it out of what it loads)
+						var noCreate []gmsl.PDU
+						for _, p := range ac.state {
+							if p.Type() != "m.room.create" {
+								noCreate = append(noCreate, p)
+							}
+						}
+						provStates = append(provStates, noCreate)
+					}
+					for pi, provState := range provStates {
+						if !(sameRoom(ac.state) && ac.kind != "create") {
+							break
+						}
+						prov, err := gmsl.NewAuthEvents(provState)
 						if err != nil {
 							return
 						}
-						jv := ref.MustParse(ac.ev.JSON())
 						sk := ac.ev.StateKey()
 						eb := impl.NewEventBuilderFromProtoEvent(&gmsl.ProtoEvent{SenderID: string(ac.ev.SenderID()), RoomID: w.roomID, Type: ac.ev.Type(), StateKey: sk,
 							PrevEvents: ac.ev.PrevEventIDs(), Depth: ac.ev.Depth(), Content: ac.ev.Content(), Redacts: ac.ev.Redacts()})
-						_ = jv
 						if err := eb.AddAuthEvents(prov); err != nil {
 							c.Count("add_auth_events_refused")
 							return
@@ -228,7 +241,11 @@ func runC09(c *mon.Ctx) {
 						}
 						c.Count("relation|add-auth-events")
 						if full != own {
-							c.Failf("verdict-depends-on:auth-events-selected-by-AddAuthEvents", "v%s %s event built with AddAuthEvents: %s against the full state, %s against the auth events it lists\nevent: %s\nstate: %v\nselected: %v", ver, ac.kind, full, own, built.JSON(), describeState(ac.state), describeState(sel))
+							how := "AddAuthEvents"
+							if pi == 1 {
+								how = "AddAuthEvents from a provider without the create event"
+							}
+							c.Failf("verdict-depends-on:auth-events-selected-by-AddAuthEvents", "v%s %s event built with %s: %s against the full state, %s against the auth events it lists\nevent: %s\nstate: %v\nselected: %v", ver, ac.kind, how, full, own, built.JSON(), describeState(ac.state), describeState(sel))
 						}
 					}
 				})
